@@ -69,13 +69,24 @@ try:
                 ran[-1]["same_failures_on_clean_tree"] = fails(out3)
     res["existing_tests_pass"] = ok; res["existing_tests"] = ran
     res["checks"] = {}
+    head = subprocess.run("git -C /repo rev-parse --short HEAD", shell=True, stdout=subprocess.PIPE, text=True).stdout.strip()
+    def keys(out): return sorted(set(re.findall(r'^VIOLATION .*key="([^"]*)"', out, re.M)))
     for ck in checks:
+        # violation keys on the unpatched tree (cached per repo HEAD): only NEW keys count as detection
+        bf = f"/verif/build/baseline_{ck}_{head}.json"
+        if os.path.exists(bf):
+            base = json.load(open(bf))
+        else:
+            rb = subprocess.run(f"./vcheck {ck} --tier quick", shell=True, cwd="/verif", env=env, stdout=subprocess.PIPE, stderr=subprocess.STDOUT, text=True)
+            base = {"exit": rb.returncode, "keys": keys(rb.stdout)}
+            json.dump(base, open(bf, "w"))
         e2 = dict(env, VERIF_REPO=wt)
         r = subprocess.run(f"./vcheck {ck} --tier quick", shell=True, cwd="/verif", env=e2, stdout=subprocess.PIPE, stderr=subprocess.STDOUT, text=True)
-        res["checks"][ck] = {"exit": r.returncode, "violations": [l for l in r.stdout.splitlines() if l.startswith("VIOLATION")][:5],
+        res["checks"][ck] = {"exit": r.returncode, "baseline_exit": base["exit"], "new_keys": [k for k in keys(r.stdout) if k not in base["keys"]],
+                             "violations": [l for l in r.stdout.splitlines() if l.startswith("VIOLATION")][:5],
                              "summary": [l for l in r.stdout.splitlines() if l.startswith("SUMMARY")]}
     res["confirmed"] = bool(res["demo_clean_pass"] and res["demo_patched_fail"] and ok)
-    res["detected_by"] = [k for k, v in res["checks"].items() if v["exit"] == 1]
+    res["detected_by"] = [k for k, v in res["checks"].items() if v["exit"] == 1 and v["new_keys"]]
 finally:
     subprocess.run(f"git -C /repo worktree remove --force {wt}", shell=True, stdout=subprocess.DEVNULL, stderr=subprocess.DEVNULL)
     shutil.rmtree(wt, ignore_errors=True)
